@@ -237,7 +237,7 @@ fn plan_of(h: &History, cfg: &Cfg, events: bool) -> Value {
         "threads": h.threads,
         "schedule": h.schedule,
         "faults": h.faults,
-        "max_steps": 20000,
+        "max_steps": 3000000,
         "tree_prefix": format!("{}/", cfg.tree_root.display()),
         "events": events,
     })
@@ -498,7 +498,7 @@ fn minimise(h: &History, class: &str, cfg: &Cfg, oracle: &Oracle, budget: usize)
         let rep = run_and_check(&best, cfg, oracle, false);
         attempts += 1;
         if let Some(res) = &rep.result {
-            if has_class(&rep, class) {
+            if has_class(&rep, class) && res["decisions"].is_array() {
                 let mut cand = best.clone();
                 cand.schedule = json!({"kind": "list", "decisions": res["decisions"]});
                 let rep2 = run_and_check(&cand, cfg, oracle, false);
@@ -567,7 +567,7 @@ fn minimise(h: &History, class: &str, cfg: &Cfg, oracle: &Oracle, budget: usize)
     if best.flavour == "sim" {
         let rep = run_and_check(&best, cfg, oracle, false);
         attempts += 1;
-        if let (true, Some(res)) = (has_class(&rep, class), &rep.result) {
+        if let (true, Some(res), true) = (has_class(&rep, class), &rep.result, rep.result.as_ref().map(|r| r["decisions"].is_array()).unwrap_or(false)) {
             let mut decisions: Vec<u64> = res["decisions"]
                 .as_array()
                 .map(|a| a.iter().map(|x| x.as_u64().unwrap_or(0)).collect())
@@ -789,6 +789,10 @@ fn absorb(agg: &mut Agg, subseed: u64, h: &History, rep: &RunReport, oracle: &Or
         }
         if h.threads.len() >= 8 {
             bump(&mut agg.probes, "runs_with_8+_threads", 1);
+        }
+        if h.labels.iter().any(|l| l == "fine") {
+            bump(&mut agg.probes, "histories_interleaved_inside_code_generation(fine)", 1);
+            bump(&mut agg.counters, "fine_yield_points", res["fine_yield_points"].as_u64().unwrap_or(0));
         }
         if h.labels.iter().any(|l| l == "long") {
             bump(&mut agg.probes, "long_histories_120_to_400_calls", 1);
@@ -1046,7 +1050,7 @@ fn main() {
                     let a = run_worker(cfg.hooked.as_ref().unwrap(), &cfg.tree_root, &plan, 180);
                     let b = run_worker(cfg.hooked.as_ref().unwrap(), &cfg.tree_root, &plan, 180);
                     let key = |r: &WorkerResult| {
-                        r.json.as_ref().map(|v| format!("{}|{}|{}", v["log_hash"], v["outcomes"], v["decisions"])).unwrap_or_else(|| format!("crash:{:?}", r.crash))
+                        r.json.as_ref().map(|v| format!("{}|{}|{}|{}", v["log_hash"], v["outcomes"], v["decisions_fp"], v["decision_count"])).unwrap_or_else(|| format!("crash:{:?}", r.crash))
                     };
                     let degraded = |r: &WorkerResult| r.json.as_ref().map(|v| v["degraded"].as_u64().unwrap_or(0) > 0).unwrap_or(false);
                     if degraded(&a) || degraded(&b) {
